@@ -32,12 +32,166 @@ VIA = ("kwarg", "context", "render-tag", "include-tag", "kwarg+context")
 PLACEHOLDER_WHO = "{{ who }}"
 
 
+# partial-loading families ("p-*"): templates that contain render / include / extends tags
+P_NAMES = ("page", "ipage", "child", "solo", "card", "leaf", "base")
+P_TOPS = (0, 1, 2, 3, 4)  # what histories load at top level: page ipage child solo card
+P_MUTATIONS = (("modify", 4), ("modify", 5), ("modify", 6), ("modify", 0),
+               ("delete", 4), ("delete", 5))
+
+
 def is_ns_family(fam: str) -> bool:
     return fam.startswith("ns-")
 
 
+def is_p_family(fam: str) -> bool:
+    return fam.startswith("p-")
+
+
+def concrete_names(fam: str) -> bool:
+    """Families whose template names mean something (never renamed, always printed)."""
+    return is_ns_family(fam) or is_p_family(fam)
+
+
 def names_of(fam: str) -> tuple[str, ...]:
+    if is_p_family(fam):
+        return P_NAMES
     return NS_NAMES if is_ns_family(fam) else NAMES
+
+
+def p_source(place: str, name: str, version: int) -> str:
+    """Source of a template of the partial-loading families: its own marker plus the
+    tag(s) that make rendering it load other templates:
+    page -> render card -> render leaf;  ipage -> include card -> render leaf;
+    child -> extends base (base includes leaf and defines block b);  solo, leaf: plain."""
+    m = f"<{place}:{name}:v{version}|{PLACEHOLDER_WHO}|>"
+    if name == "page":
+        return m + "[{% render 'card' %}]"
+    if name == "ipage":
+        return m + "[{% include 'card' %}]"
+    if name == "card":
+        return m + "[{% render 'leaf' %}]"
+    if name == "base":
+        return m + "[{% include 'leaf' %}](" + P_BLOCK + ")"
+    if name == "child":
+        return "{% extends 'base' %}{% block b %}" + m + "{% endblock %}"
+    return m
+
+
+P_BLOCK = "{% block b %}d{% endblock %}"
+RE_P_TAG = re.compile(r"\{% (render|include) '(\w+)' %\}")
+RE_P_EXTENDS = re.compile(r"^\{% extends '(\w+)' %\}\{% block b %\}(.*)\{% endblock %\}$", re.S)
+RE_MARKER = re.compile(r"<([^:|<>]+):([^:|<>]+):v(\d+)\|([^|<>]*)\|([^|<>]*)>")
+
+
+def p_expand(source: str, who: object, load: Callable[[str, str], tuple[str, str]]) -> tuple[str, str]:
+    """Reference rendering of a p_source text.  load(name, tag) performs the model-level
+    load of a partial and returns ("ok", its source) or ("err", class); loads happen in
+    document order, depth first — exactly when the engine's tags ask the loader."""
+    m = RE_P_EXTENDS.match(source)
+    if m:
+        r = load(m.group(1), "extends")
+        if r[0] != "ok":
+            return r
+        block = render_ref(m.group(2), who, None)
+        r2 = p_expand(r[1].replace(P_BLOCK, "\x00"), who, load)
+        if r2[0] != "ok":
+            return r2
+        return ("ok", r2[1].replace("\x00", block))
+    out: list[str] = []
+    pos = 0
+    for t in RE_P_TAG.finditer(source):
+        out.append(render_ref(source[pos : t.start()], who, None))
+        r = load(t.group(2), t.group(1))
+        if r[0] != "ok":
+            return r
+        r2 = p_expand(r[1], who, load)
+        if r2[0] != "ok":
+            return r2
+        out.append(r2[1])
+        pos = t.end()
+    out.append(render_ref(source[pos:], who, None))
+    return ("ok", "".join(out))
+
+
+def partials_histories(length: int, with_ns: bool) -> Iterator[tuple[Op, ...]]:
+    """Every history of exactly *length* steps over {load+render one of page, ipage,
+    child, solo, card (namespace none/t1/t2 through the template globals when with_ns)}
+    and {modify card/leaf/base/page, delete card/leaf}, ending in a load; every load
+    passes globals {'who': unique}."""
+    nss = (0, 1, 2) if with_ns else (0,)
+
+    def rec(prefix: tuple[Op, ...]) -> Iterator[tuple[Op, ...]]:
+        final = len(prefix) + 1 == length
+        last = prefix[-1] if prefix else None
+        for n in P_TOPS:
+            for ns in nss:
+                op = Op("load", n, ns, 1, 0, 0)
+                if final:
+                    yield (*prefix, op)
+                else:
+                    yield from rec((*prefix, op))
+        if final:
+            return
+        for kind, n in P_MUTATIONS:
+            if last is not None and last.kind in ("modify", "delete") and last.name == n:
+                continue
+            yield from rec((*prefix, Op(kind, n)))
+
+    yield from rec(())
+
+
+def partials_skeletons() -> Iterator[tuple[Op, ...]]:
+    """A, A, B, [B2], CHANGE, A — the parent A stays cached while other loads push its
+    partials out and a partial changes (A in page ipage child card; B, B2 any top)."""
+    for a in (0, 1, 2, 4):
+        for b in P_TOPS:
+            for b2 in (None, *P_TOPS):
+                for kind, n in P_MUTATIONS:
+                    h = [Op("load", a, 0, 1), Op("load", a, 0, 1), Op("load", b, 0, 1)]
+                    if b2 is not None:
+                        h.append(Op("load", b2, 0, 1))
+                    h += [Op(kind, n), Op("load", a, 0, 1)]
+                    yield tuple(h)
+
+
+def with_mode(ops: tuple[Op, ...], mode: int) -> tuple[Op, ...]:
+    """mode 0: all loads sync, 1: all async, 2: alternating starting sync."""
+    out = []
+    k = 0
+    for o in ops:
+        if o.kind == "load":
+            out.append(o._replace(mode=(mode if mode < 2 else k % 2)))
+            k += 1
+        else:
+            out.append(o)
+    return tuple(out)
+
+
+def globals_histories(length: int) -> Iterator[tuple[Op, ...]]:
+    """Globals-precedence family: loads of <= 2 names (canonical) with no globals /
+    template globals / template globals + a render argument / a render argument only,
+    sync or async, and modify steps; ends in a load.  Run on an Environment whose own
+    globals define the SAME variable name."""
+
+    def rec(prefix: tuple[Op, ...], used: int) -> Iterator[tuple[Op, ...]]:
+        final = len(prefix) + 1 == length
+        last = prefix[-1] if prefix else None
+        for n in range(min(used + 1, 2)):
+            for g in (0, 1, 3, 4):
+                for mode in (0, 1):
+                    op = Op("load", n, 0, g, mode)
+                    if final:
+                        yield (*prefix, op)
+                    else:
+                        yield from rec((*prefix, op), max(used, n + 1))
+        if final:
+            return
+        for n in range(min(used + 1, 2)):
+            if last is not None and last.kind == "modify" and last.name == n:
+                continue
+            yield from rec((*prefix, Op("modify", n)), max(used, n + 1))
+
+    yield from rec((), 0)
 
 
 def ns_values_of(fam: str) -> tuple[object, ...]:
@@ -93,7 +247,8 @@ class Op(NamedTuple):
     kind: 'load' | 'modify' | 'delete' | 'fail'
     name: index into NAMES (load/modify/delete)
     ns:   0 = the load carries no namespace, 1/2 = NAMESPACES[ns-1]
-    g:    0 = no globals (None), 1 = globals {'who': <unique per step>}, 2 = globals {}
+    g:    0 = no globals (None), 1 = globals {'who': <unique per step>}, 2 = globals {},
+          3 = globals {'who': ...} and a render argument who=..., 4 = render argument only
     mode: 0 = sync, 1 = async
     via:  0 = namespace passed as keyword argument, 1 = through a render context
 
@@ -136,9 +291,12 @@ def show_op(o: Op, fam: str = "") -> str:
                 s += "]"
             elif o.via:
                 s += f"[no ns, via {VIA[o.via]}]"
+        elif is_p_family(fam):
+            if o.ns:
+                s += f"[globals ns={NAMESPACES[o.ns - 1]}]"
         elif o.ns:
             s += f"[{NAMESPACES[o.ns - 1]} via {'context' if o.via else 'kwargs'}]"
-        s += {0: "(no-g)", 1: "(g)", 2: "(g={})"}[o.g]
+        s += {0: "(no-g)", 1: "(g)", 2: "(g={})", 3: "(g+render-arg)", 4: "(render-arg)"}[o.g]
         return s
     if o.kind == "fail":
         return "fail-next"
@@ -530,15 +688,19 @@ def pattern(ops: list[Op], category: str, fam: str = "") -> str:
     multi_n = len(names) > 1
     multi_ns = len(nss) > 1
     nsfam = is_ns_family(fam)
+    pfam = is_p_family(fam)
     show_g = category.startswith("stale-globals") or category.startswith("env-globals")
     parts = []
     for o in ops:
         if o.kind == "fail":
             parts.append("fail-next")
             continue
-        nm = " " + "xyz"[names.index(o.name)] if multi_n else ""
         if nsfam:
             nm = " " + NS_NAMES[o.name]
+        elif pfam:
+            nm = " " + P_NAMES[o.name]
+        else:
+            nm = " " + "xyz"[names.index(o.name)] if multi_n else ""
         if o.kind != "load":
             extra = ""
             if o.kind == "modify" and (o.g or o.via):
@@ -556,7 +718,11 @@ def pattern(ops: list[Op], category: str, fam: str = "") -> str:
         elif o.ns:
             s += f"[n{nss.index(o.ns) + 1}]" if multi_ns else "[ns]"
         if o.g == 1:
-            s += "(g)"
+            s += "" if pfam else "(g)"
+        elif o.g == 3:
+            s += "(g+render-arg)"
+        elif o.g == 4:
+            s += "(render-arg)"
         elif show_g:
             s += "(no-g)"
         parts.append(s)
@@ -623,13 +789,13 @@ def simplifications(ops: list[Op], fam: str = "") -> Iterator[list[Op]]:
             yield [*ops[:i], o._replace(via=2), *ops[i + 1 :]]
         if o.ns == 2 and not nsfam:
             yield [*ops[:i], o._replace(ns=1), *ops[i + 1 :]]
-        if o.g:
+        if o.g and not is_p_family(fam):
             yield [*ops[:i], o._replace(g=0), *ops[i + 1 :]]
-        if o.g == 2:
+        if o.g in (2, 3):
             yield [*ops[:i], o._replace(g=1), *ops[i + 1 :]]
     # merge names: replace the highest name by a lower one everywhere
     used = sorted({o.name for o in ops if o.kind != "fail"})
-    if len(used) > 1:
+    if len(used) > 1 and not concrete_names(fam):
         hi = used[-1]
         for lo in used[:-1]:
             yield [o._replace(name=lo) if (o.kind != "fail" and o.name == hi) else o for o in ops]
